@@ -338,11 +338,17 @@ static int _upipe_crop_set_rect(struct upipe *upipe,
         int64_t loffset, int64_t roffset, int64_t toffset, int64_t boffset)
 {
     struct upipe_crop *crop = upipe_crop_from_upipe(upipe);
+    struct offset previous = crop->offset;
     crop->offset.l = loffset;
     crop->offset.r = roffset;
     crop->offset.t = toffset;
     crop->offset.b = boffset;
-    UBASE_RETURN(upipe_crop_prepare(upipe));
+    int err = upipe_crop_prepare(upipe);
+    if (unlikely(!ubase_check(err))) {
+        /* a refused rectangle leaves the previous one in force */
+        crop->offset = previous;
+        return err;
+    }
 
     struct uchain proxies;
     ulist_init(&proxies);
